@@ -293,14 +293,10 @@ func replayFn(c *mc.Ctx, raw json.RawMessage) (string, bool) {
 	}
 	vs, info := checkExpr(rp.Expression, stageAll)
 	fmt.Fprintf(&sb, "prints as: %q\nvalue classes per context: %v\n", info.printed, info.classes)
-	violated := false
 	for _, v := range vs {
 		fmt.Fprintf(&sb, "PROBLEM %s: %s\n", v.key, v.what)
-		if rp.Key == "" || v.key == rp.Key {
-			violated = true
-		}
 	}
-	return sb.String(), violated
+	return sb.String(), len(vs) > 0
 }
 
 func guards(r *mc.Result, tier string) []string {
